@@ -460,7 +460,7 @@ META = dict(
                       "foreign frame (cs, target symbolic), heartbeat byte symbolic (own / other node), slave boot-up}; "
                       "histories k<=2 from the initial state; wait patterns up to 3 wake-ups",
                 thorough="histories k<=3"),
-    outside_bounds=["the *name* reported for undefined state numbers", "wake-up ordering between real threads",
+    outside_bounds=["the *name* reported for undefined state numbers", "a wait that starts while another waiter of the same node is being woken (it resets the shared flag)", "thread schedules beyond lock granularity plus one preemption at a source line",
                     "histories longer than the bound (covered by the inductive step under the stated invariant)"],
     assumptions=["node id 5 (other node 9): the code is uniform in the node id",
                  "fake clock advances by the time-out on a wake-up without delivery"],
